@@ -9,6 +9,11 @@ NA = {
 PENDING = "not claimed yet: contracts for this property are still being written (DESIGN.md build order)"
 
 CLAIMED = {
+ "C01": dict(
+   text="Deductive by reduction: equality of the delivered request/response follows from trusted library round trips plus agreement facts about this repository's code, and the agreement facts are proved for all services and all values: the Go client and Go server decide the same verb, path template and path variables (C03 lemmas restricted to the Go pair), the client sends a body exactly for the verbs the server decodes one for, every path variable the validator admits is a singular scalar whose printed form the server's converter parses back to the same value (per-kind lemmas over the converter's contract, all integer widths, bool, string), body-less verbs carry every field in the URL, and the four codec dispatch tables (client marshalRequest/unmarshalResponse, server bindDataBasedOnContentType/marshalResponse, proved as at-call obligations on the extracted constant templates) agree for the standard content types; their disagreement for application/octet-stream and parameterised types, the default-route and relative-path route disagreements and base-path variables are known findings. A bounded end-to-end family (client and server of one service compiled together and run over httptest: 7 RPCs x 3 content types x boundary values) is the replayer.",
+   design="4 (C01)",
+   note="Trusted: strconv (incl. floats), net/url escaping, ServeMux, protojson/proto and the custom codecs of C04-C08. Per-RPC emitted client text (URL assembly, query encoding) is verified on the extraction schema and exercised by the family only (bounded over schemas).",
+   technique="contract-based deductive verification: agreement lemmas over verified contracts of the deciding generator functions and of the extracted emitted templates (event/at-call tables), z3/cvc5 race; bounded client-server end-to-end family as replayer"),
  "C16": dict(
    text="Deductive where a contract can state it: every function on a static call cycle of the generator packages (41 today) carries a `decreases` measure whose VC is discharged at every recursive call (nesting depth of descriptors, or the number of full names not yet in a visited/on-stack set, with the set-growth invariants proved through the loops); a structural rule refuses any recursive function without a measure and any loop that is not a range over a finite collection or a simple counting loop; a zero-annotation bounds sweep proves every index, slice, type-assertion and explicit-panic site of all 550 functions of the generator packages and the five plugin mains unreachable-or-in-range for all arguments. Two genuine defects found this way were repaired with fix: commits (unbounded mock recursion on self-containing response types, panic-on-error in the OpenAPI main). Crash-freedom of whole plugin runs is additionally sampled by a bounded family (descriptor shapes x plugins x parameters, thorough tier) that also serves as the replayer.",
    design="4 (C16)",
